@@ -88,6 +88,11 @@ def generate(run_seed, tier):
         elif r < 0.4:
             m['gas'] = {'kind': 'array', 'values': [
                 10 ** c.uniform(-8, -4) for _ in range(c.randint(2, 6))]}
+            if c.random() < 0.4:
+                # the species is absent from part of the atmosphere
+                vals = m['gas']['values']
+                for j in c.sample(range(len(vals)), c.randint(1, len(vals) - 1)):
+                    vals[j] = 0.0
             m['mix'] = max(m['gas']['values'])
     if 'HydrogenIon' in contribs:
         mcfg['molecules'] += [{'name': 'H', 'mix': 10 ** c.uniform(-5, -3)},
